@@ -70,6 +70,9 @@ func (p *testParser) classicTest(fval string, pastAndOr bool) syntax.TestExpr {
 			p.errf("%s must be followed by an expression", opStr)
 		}
 	default:
+		if _, ok := left.(*syntax.Word); !ok {
+			p.errf("too many arguments")
+		}
 		b.Y = p.followWord(opStr)
 	}
 	return b
